@@ -25,6 +25,7 @@ UNIT = 32768          # bytes per model unit (Cap = 2 units = one 64 KiB Linux p
 LONG = 30000          # ms: "still running when the failure happens"; the run times out (hang) long before
 SCALES = (40, 110)    # ms per delay rank
 TRIPLE = "x86_64-linux-gnu"
+SIGNALS = []          # filled from DriverProc.tla's Signals (VSIGNALS line): SIGSEGV, SIGKILL, SIGTERM, SIGINT, SIGHUP, SIGPIPE, SIGABRT
 
 LINKISH = {1: [("p%d.s", ["as"])], 2: [("p%d.S", ["cpp", "as"]), ("p%d.qbe", ["qbe", "as"])],
            3: [("p%d.i", ["cc", "qbe", "as"])], 4: [("p%d.c", ["cpp", "cc", "qbe", "as"])]}
@@ -202,7 +203,8 @@ class FlowA:
             return "known", dev, "observed %s, required %s" % (out, sorted(g["required"]))
         return "ok", None, None
 
-    def run(self, groups, max_classes_per_cfg, sigs=(11, 9)):
+    def run(self, groups, max_classes_per_cfg):
+        sigs = list(SIGNALS)
         ctx = self.ctx
         tasks, meta = [], []
         skipped = 0
@@ -214,7 +216,8 @@ class FlowA:
             has_signal = "signal" in g["cfg"]["ends"] or g["cfg"]["lend"] == "signal"
             for ei, early in enumerate(earlies):
                 for si, sig in enumerate(sigs if has_signal else sigs[:1]):
-                    for scale in SCALES:
+                    # every signal at every position; the first two with both delay scales, the others alternate
+                    for scale in (SCALES if si < 2 else (SCALES[(si + ei) % 2],)):
                         t = self.make_task(g, early, scale, sig, gi + ei, len(meta))
                         if t is None:
                             skipped += 1
@@ -434,7 +437,7 @@ class FlowB:
             g = groups[key]
             earlies = sorted(g["early"])
             early = earlies[i % len(earlies)]
-            t = self.fa.make_task(g, early, SCALES[0], (11, 9)[i % 2], i, len(meta))
+            t = self.fa.make_task(g, early, SCALES[0], SIGNALS[i % len(SIGNALS)], i, len(meta))
             if t is None:
                 continue
             task, inputs = t
@@ -515,6 +518,13 @@ def model_check(ctx, cfgname, workers, timeout=2400, heap="4g"):
     r = ctx.tlc("DriverProc", cfgname, workers=workers, timeout=timeout, heap=heap, on_line=lambda p: cases.append(json.loads(p)))
     if not r.ok:
         raise vlib.MachineryError("DriverProc.tla %s: invariant violated in the model (rc=%d):\n%s" % (cfgname, r.rc, r.out[-5000:]))
+    for ln in r.out.split("\n"):
+        if ln.startswith('"VSIGNALS '):      # the signals that realise the end "signal" come from the spec
+            import signal as _sg
+            names = json.loads(json.loads(ln)[len("VSIGNALS "):])
+            SIGNALS[:] = [int(getattr(_sg, n)) for n in names]
+    if not SIGNALS:
+        raise vlib.MachineryError("no VSIGNALS line from DriverProc.tla")
     return r, cases
 
 
@@ -560,7 +570,7 @@ def run(ctx):
             raise aux_err[0]
         ctx.cov["rule"] = ("one class = (pipeline shape 1..%d stages x 1..2 inputs, output mode link/file/stdout, failing stage, failure mode, "
                            "set of stages that had finished before the failure) taken from the terminal states of DriverProc.tla; each class is "
-                           "run on the real driver with two delay scales (and with SIGSEGV and SIGKILL for 'signal'); non-trivial = some stage "
+                           "run on the real driver with two delay scales (and with every signal of DriverProc.tla's Signals for 'signal'); non-trivial = some stage "
                            "or the link step fails") % (3 if ctx.quick else 4)
         ctx.assumptions += [
             "a stage that exits 0 has read its input to end-of-file (otherwise the driver, which keeps every pipe read end open, can wait forever: recorded as an observation in the notes, outside C18's antecedent)",
